@@ -81,13 +81,17 @@ def _record_fallback(ctx, f: Func, op) -> bool:
     """The tested text comes from a local helper that returns the join of a
     recorded list ``reaction.get(<non text key>)`` and falls back to the whole
     side only under ``<record> is None``."""
-    call = None
+    h = None
     for c in ast.walk(op.node):
-        if isinstance(c, ast.Call) and isinstance(c.func, ast.Name) and c.func.id in f.nested:
-            call = c
-    if call is None:
+        if isinstance(c, ast.Call):
+            if isinstance(c.func, ast.Name) and c.func.id in f.nested:
+                h = f.nested[c.func.id]
+            else:
+                t = ctx.res.resolve_callee(c, f)
+                if t and t[0] == "func" and t[1] in ctx.prog.functions and t[1].startswith("synrbl."):
+                    h = ctx.prog.functions[t[1]]
+    if h is None:
         return False
-    h = f.nested[call.func.id]
     from ..cfg import CFG
 
     cfg = CFG(h.node)
@@ -128,8 +132,18 @@ def _record_chain(ctx):
     stores = [n for n in own_nodes(mod.node) if isinstance(n, ast.Assign) and isinstance(n.targets[0], ast.Subscript) and str(const_str(n.targets[0].slice)).startswith("added_")]
     b = len(stores) >= 2
     for st in stores:
-        g = [(unparse(c), p) for c, p in cfg.guards(cfg.node_of(st))]
-        if g != [("'imputed_side' in entry", True)]:
+        g = cfg.guards(cfg.node_of(st))
+        base = st.targets[0].value
+        okg = (
+            len(g) == 1
+            and g[0][1] is True
+            and isinstance(g[0][0], ast.Compare)
+            and len(g[0][0].ops) == 1
+            and isinstance(g[0][0].ops[0], ast.In)
+            and const_str(g[0][0].left) == "imputed_side"
+            and unparse(g[0][0].comparators[0]) == unparse(base)
+        )
+        if not okg:
             b = False
     return a and b, "imputer records imputed_side with new_reaction: %s; constraint step stores added_* iff imputed_side: %s" % (a, b)
 
